@@ -53,11 +53,16 @@ Record oracles : Type := mkOr {
 
 (* The conversions Go performs in hardware, modelled exactly on bit patterns (Lib/Float.v):
    float32 -> float64 widening for every pattern, int64 -> float64 with round-to-nearest-even,
-   float64 -> int64 truncation where Go defines it.  What remains external: the result of
-   int64(float64) for NaN / infinities / magnitudes >= 2^63 (f2i_oor), and strconv / protojson. *)
-Definition go_oracles (f2i_oor : Z -> Z) (fmt_f : Z -> list Z) (parse_f : list Z -> option Z)
-           (fmt_p : list Z -> list Z) : oracles :=
-  mkOr widen32
+   float64 -> int64 truncation where Go defines it.  What remains external: which NaN a float32
+   NaN widens to (nan_widen: amd64 keeps sign and payload and sets the quiet bit, which is what
+   widen32 computes; the 386 build observed here returns the canonical 0x7ff8000000000000; Go
+   promises neither), the result of int64(float64) for NaN / infinities / magnitudes >= 2^63
+   (f2i_oor), and strconv / protojson. *)
+Definition is_nan32 (b : Z) : bool := (f32_exp b =? 255) && negb (f32_man b =? 0).
+
+Definition go_oracles (nan_widen : Z -> Z) (f2i_oor : Z -> Z) (fmt_f : Z -> list Z)
+           (parse_f : list Z -> option Z) (fmt_p : list Z -> list Z) : oracles :=
+  mkOr (fun b => if is_nan32 b then nan_widen b else widen32 b)
        (fun w => match Float.f2i w with Some z => z | None => f2i_oor w end)
        Float.i2f fmt_f parse_f fmt_p.
 
